@@ -175,6 +175,7 @@ func runProc(t *testing.T, c procCase) (out outcome, err error) {
 		nextID := 0
 		seen := 0 // invocations already judged
 		closeIssued := false
+		closeCalls := 0
 		var closeRet atomic.Bool
 		k.closeRet = &closeRet
 		var wg sync.WaitGroup
@@ -360,10 +361,14 @@ func runProc(t *testing.T, c procCase) (out outcome, err error) {
 				}
 				k.blockNext = false
 				k.mu.Unlock()
+			case "close2":
+				do(op{Kind: "close"})
+				do(op{Kind: "close"})
 			case "close":
-				if closeIssued {
+				if closeCalls >= 4 {
 					return
 				}
+				closeCalls++
 				k.mu.Lock()
 				if k.cbBlocked {
 					out.closeWhileBlocked = true
@@ -531,7 +536,7 @@ func genCase(rt *rapid.T) procCase {
 		case kind == 16:
 			c.Ops = append(c.Ops, op{Kind: "release"})
 		case kind == 17 && rapid.IntRange(0, 2).Draw(rt, "reallyClose") == 0:
-			c.Ops = append(c.Ops, op{Kind: "close"})
+			c.Ops = append(c.Ops, op{Kind: rapid.SampledFrom([]string{"close", "close2"}).Draw(rt, "closeKind")})
 		default:
 			g := op{Kind: "group"}
 			used := map[int]bool{}
